@@ -20,15 +20,31 @@ def run(prop, tier):
     s = json.load(open(summ))
     out.add_findings(s["findings"])
     require(s["cases"] > 1000, "too few returning computations: %d" % s["cases"])
+    # n-ary tuples (ZyCore has pairs only): spec/ZyProducts.tla, family "mon"
+    tcfg = "MC_ZyProducts_mon5.cfg" if tier == "quick" else "MC_ZyProducts_mon7.cfg"
+    tout = os.path.join(W, "tuples.out")
+    tres = lib.run_tlc("ZyProducts.tla", tcfg, tout, workers=2, coverage=False, timeout=600)
+    tcases = os.path.join(W, "tuples.cases.ndjson")
+    nt = lib.extract_replay(tout, tcases)
+    os.remove(tout)
+    require(nt >= 100, "too few tuple programs: %d" % nt)
+    tsumm = os.path.join(W, "tuples.summary.json")
+    lib.zyconf(["replay-monadic", tcases, tsumm], timeout=3000)
+    ts = json.load(open(tsumm))
+    out.add_findings(ts["findings"])
+    require(ts["cases"] == nt, "tuple programs dropped: %d of %d" % (ts["cases"], nt))
     kinds, _ = p_core.token_histogram(cases)
     for k in ("ret", "do", "lam", "app", "thunk", "force", "let", "match", "ctor"):
         require(kinds.get(k, 0) > 0, "construct %s never generated" % k)
-    out.coverage = {"states": res["distinct"], "transitions": res["generated"], "traces_validated_against_impl": s["cases"],
+    out.coverage = {"states": res["distinct"] + tres["distinct"], "transitions": res["generated"] + tres["generated"], "traces_validated_against_impl": s["cases"] + ts["cases"],
+                    "tuple_programs": {"programs": ts["cases"], "classes": ts["classes"]},
                     "samples": s["samples"], "exhaustive": True, "classes": s["classes"], "token_histogram": dict(kinds),
                     "explanation": "every closed computation of type Ret Int64 up to the token bound over ret, do, fn, application, thunk, force, let, data "
                                    "constructors, match, pairs (TLC: GenSound, TypeSafety, predicted returned value) is rendered plain and as an @[monadic] "
                                    "block applied to Ret and the identity monad instance in one scaffold; the program compares the two results and exits with "
-                                   "them; both must equal the reference semantics' value, the translated block must be accepted and never go wrong."}
+                                   "them; both must equal the reference semantics' value, the translated block must be accepted and never go wrong. "
+                                   "spec/ZyProducts.tla (family mon) adds tuples of arity 2-5 (thorough 7) built by the block in five ways, taken apart by a full or "
+                                   "partial tuple pattern, with every named component returned in turn (component i has the value i)."}
     out.assumptions = ["TLC 1.8.0", "renderer harness/src/core.rs + scaffold harness/src/monadic.rs", "data types are transparent global lets (sealed ones are rejected by design)"]
     return out.finish()
 
